@@ -32,13 +32,23 @@ def _p(claim, props=None, level="other", streams=None):
 
 
 PROPS = {
-    "C01": _p("Every instance's accept/reject decisions, blocks and epoch transitions are compared with the graph-level reference, which is "
-              "order-free by construction; instances process the same events in different random parents-first orders. No theorem yet links the "
-              "implementation model to the reference (see DESIGN: C10 lemma chain) - correspondence only."),
+    "C01": _p("Proof (partial), about the election model and the graph-level rules of Spec/ElectionRules.lean: (a) C01_election_order_independent - for one valid "
+              "history with accepted frames and forkers below one third, two runs of the election model for the same frame (different forkless-cause oracles, root tables "
+              "and feeding orders, each oracle answering the graph forkless cause, each table listing the graph's roots, each feed closed = every root fed after the "
+              "previous-frame roots it forkless-causes) that both return an Atropos return the same frame and Atropos (from L2, L4, uniqueness of the Atropos and the "
+              "single-election refinement of C10). (b) C01_order_independent_partial - two instances' (frame, Atropos) sequences of equal length are identical, under explicit "
+              "named hypotheses that are NOT proved: OraclesAgree (C05: index = graph forkless cause in any indexing order; C33+C04: root table = graph roots; canonical "
+              "validator set), FramesAccepted (C04), BlocksFromElections (L5: every emitted block is the result of one election run from reset), FramesConsecutive (C02), "
+              "equal number of blocks. Not proved: that both instances decide the same number of frames, 'accept every event' (L6), cheater lists (C03/C06), epoch transitions, L5. "
+              "Correspondence: every instance's accept/reject decisions, blocks, cheaters and epoch transitions are compared with the graph-level reference, which is "
+              "order-free by construction; instances process the same events in different random parents-first orders.",
+              props=["LachesisVerif.Props.C01"], level="proof"),
     "C02": _p("Proof (partial): the explicit-stack DFS of confirmEvents, started on an ancestor-closed confirmed set, delivers exactly the Atropos' "
               "ancestry minus what was confirmed, each event once, and leaves an ancestor-closed set; decided frames are frameToDecide and onFrameDecided "
               "moves to the next frame / FirstFrame after a seal. Termination is proved too: on a DAG given as a parents-first history (parents have smaller positions) with n events and at most k parents per event the loop finishes within n*(k+1)+1 iterations from any confirmed set (C02_confirm_terminates; total correctness C02_block_total). "
-              "Not proved: 'Atropos is a root of the frame'. "
+              "C02_atropos_is_root: in every election-model state reachable from reset by processRoot calls whose roots oracle returns only roots of the asked frame, "
+              "a returned Atropos is (frameToDecide, a) with a a root of that frame in the slot of a validator of the set (that the real roots table returns exactly the registered "
+              "roots is C33; that roots are registered for the frames (spf, frame] is C04). "
               "Correspondence: each block's delivered set and ApplyEvent call count are compared with 'ancestry of the Atropos minus everything delivered before' "
               "computed by the reference; frames consecutive from 1; Atropos is a root of the frame (reference picks it among roots).",
               props=["LachesisVerif.Props.C02"], level="proof"),
@@ -90,9 +100,16 @@ PROPS = {
     "C09": _p("Proof (reference level): a Process call that emits a sealed block ends with it and leaves exactly the fresh state of the next "
               "epoch with the requested set (= the state a direct Reset produces, hence identical continuations). Correspondence: seals at arbitrary "
               "frames with mutated/unchanged sets on the real code.", props=["LachesisVerif.Props.C09"], level="proof"),
-    "C10": _p("Proof (partial): Atropos choice rule, vote rule (tie = yes, decision on quorum), round arithmetic on the election model with regenerated "
-              "kernels, and L1 (two quorums share a never-forking validator when forkers hold < 1/3). Not proved: the induction L2-L5 lifting these to "
-              "'model blocks = reference blocks'. Correspondence (three-way): accepted frames and emitted blocks of the real code equal those of the independent reference implementation on every generated "
+    "C10": _p("Proof (partial). On the election model (regenerated kernels): Atropos choice rule, vote rule (tie = yes, decision on quorum), round arithmetic; invariants of any run of "
+              "processRoot from reset (yes-votes name a root of the frame to decide in the subject's slot, decisions only in rounds >= 2 and once per subject, returned frame = frameToDecide). "
+              "On the graph-level rules (Spec/ElectionRules.lean: forkless cause = FCSpec of C05, roots, frame rule, votes by recursion on the round, decisions, Atropos, BFT): L1 (two quorums share a "
+              "never-forking validator), L2 (under Valid, accepted frames and forkers < 1/3, two different roots of one slot are never both forkless-caused), L4 (a decision fixes all later votes and "
+              "excludes the opposite decision), uniqueness of the Atropos. Tie (C10_single_election_partial / _BFT): one election of the model fed roots in any closed order (e.g. frame-ascending) with "
+              "observe = graph forkless cause and frameRoots = the roots by frame stores exactly the votes and decisions of the rules, never reaches two-fork-roots / missing-vote / not-enough-votes, "
+              "reports all-no only if the rules decide every validator no, and a returned Atropos is the Atropos of the rules (slot uniqueness discharged from BFT by L2). "
+              "Not proved: L3, L5 (lifting from one election to whole Orderer runs and epochs: 'model blocks = reference blocks'), L6, the converse of the refinement (the model returns an Atropos as "
+              "soon as the rules determine one), equivalence of the executable reference Spec/Lachesis.lean with the Prop-level rules. "
+              "Correspondence (three-way): accepted frames and emitted blocks of the real code equal those of the independent reference implementation on every generated "
               "event set (forks below one third).", props=["LachesisVerif.Props.C10"], level="proof"),
     "C33": _p("Proof: for every history of addRoot/GetFrameRoots/epoch switches and EVERY cache eviction policy, GetFrameRoots f returns exactly "
               "the roots registered for f in the current epoch; a new epoch starts empty (key layout abstracted to records, injectivity is C32). "
